@@ -650,6 +650,57 @@ fn cmd_deepcase(path: &str, stack_kb: usize) {
     }
 }
 
+/// C09, native stack, independent of anybody's guards: the opcode path is applied to the implementation directly (hook
+/// `emit_one`, so no candidate list decides what comes next), and the guards (`valid_opcodes` = can_emit for every opcode,
+/// as the generation loop evaluates it before every step) are evaluated on the way and on the final state; then the
+/// collapse tail, STOP and the teardown - all on a thread with `stack_kb` KiB of stack.
+fn cmd_deeppath(v: usize, stack_kb: usize, path: &str) {
+    let path = path.to_string();
+    let run = move || {
+        let mut ops: Vec<String> = Vec::new();
+        for it in path.split(';') {
+            match it.split_once('*') {
+                Some((o, n)) => {
+                    for _ in 0..n.parse::<usize>().unwrap() {
+                        ops.push(o.to_string());
+                    }
+                }
+                None => ops.push(it.to_string()),
+            }
+        }
+        let version = Version::try_from(v).unwrap();
+        let mut g = Generator::new(version).with_ext_opcodes(true).with_buffer_opcodes(v >= 5);
+        let empty: [u8; 0] = [];
+        let mut u0 = arbitrary::Unstructured::new(&empty);
+        let mut s0 = GenerationSource::Arbitrary(&mut u0);
+        pf::verif::begin(&mut g, &mut s0);
+        let n = ops.len();
+        let mut guards = 0usize;
+        for (i, op) in ops.iter().enumerate() {
+            if i % 2000 == 0 || i + 4 >= n {
+                guards += pf::verif::valid_opcodes(&g).len();
+            }
+            let mut u = arbitrary::Unstructured::new(&empty);
+            let mut src = GenerationSource::Arbitrary(&mut u);
+            pf::verif::emit_one(&mut g, op, &mut src).unwrap();
+        }
+        guards += pf::verif::valid_opcodes(&g).len();
+        let tail = pf::verif::finish(&mut g);
+        let st = pf::verif::state(&g);
+        drop(g);
+        println!("DEEP-OK v={} steps={} guards={} tail={} state={}", v, n, guards, tail.len(), st);
+    };
+    let r = if stack_kb == 0 {
+        run();
+        Ok(())
+    } else {
+        std::thread::Builder::new().stack_size(stack_kb << 10).spawn(run).unwrap().join()
+    };
+    if r.is_err() {
+        std::process::exit(4);
+    }
+}
+
 /// C12: for each protocol, which opcode bytes occur (as opcodes, taken from the per-step trace, never from
 /// payload bytes) in the outputs of seeds 0..n with default settings; first seed per opcode; framed / unframed seeds
 fn cmd_census(nseeds: u64, ext: bool, buf: bool) {
@@ -799,6 +850,10 @@ fn main() {
         Some("deep") => {
             let _ = std::panic::take_hook();
             cmd_deep(a[2].parse().unwrap(), a[3].parse().unwrap(), a[4].parse().unwrap())
+        }
+        Some("deeppath") => {
+            let _ = std::panic::take_hook();
+            cmd_deeppath(a[2].parse().unwrap(), a[3].parse().unwrap(), &a[4])
         }
         Some("deepcase") => {
             let _ = std::panic::take_hook();
